@@ -80,12 +80,36 @@ def canon_fn(fn, local):
     return fn
 
 
+_ALPHA = {}
+_PARAM = {}
+
+
+def _alpha(var, name, binding=False):
+    """locals are compared up to renaming: a binding is identified by the order in which it is introduced; a parameter by its position
+    (the desugared body of an async fn refers to its parameters through fresh ids, so parameters are resolved by name)"""
+    if var is not None and var in _ALPHA:
+        return _ALPHA[var]
+    if binding and var is not None:
+        _ALPHA[var] = "#%d" % len([v for v in _ALPHA.values() if v.startswith("#")])
+        return _ALPHA[var]
+    return _PARAM.get(name, name)
+
+
+def norm_fn(f, local):
+    _ALPHA.clear()
+    _PARAM.clear()
+    for i, p in enumerate(f.get("params") or []):
+        if p["pat"]["k"] == "Bind":
+            _PARAM[p["pat"]["name"]] = "$%d" % i
+    return norm(f["body"], local)
+
+
 def npat(p):
     if p is None:
         return None
     k = p["k"]
     if k == "Bind":
-        return ("bind", p["name"], npat(p["sub"]))
+        return ("bind", _alpha(p.get("var"), p["name"], True), npat(p["sub"]))
     if k == "Wild":
         return ("_",)
     if k in ("Tuple", "Or", "SlicePat"):
@@ -118,6 +142,8 @@ def norm(e, local):
             if s["k"] == "Let":
                 # `let x = x;` — the parameter rebinding an async fn desugars to
                 if s["pat"]["k"] == "Bind" and s["init"] is not None and s["init"]["k"] == "Local" and s["init"]["name"] == s["pat"]["name"]:
+                    if s["pat"].get("var") is not None:
+                        _ALPHA[s["pat"]["var"]] = _alpha(s["init"].get("var"), s["init"]["name"])
                     continue
                 stmts.append(("let", npat(s["pat"]), norm(s["init"], local), norm(s["els"], local)))
             else:
@@ -132,7 +158,7 @@ def norm(e, local):
                 return ("lit", e[key])
         return ("lit", None)
     if k == "Local":
-        return ("var", e["name"])
+        return ("var", _alpha(e.get("var"), e["name"]))
     if k == "Path":
         c = e.get("const")
         return ("path", canon_fn(e.get("def", "?"), local), (c or {}).get("int"))
@@ -231,6 +257,20 @@ def is_template_pair(a, b):
     return sum(1 for x in la if x in lb) * 2 >= len(la) and len(la) >= 3
 
 
+def _arg_sig(fa, a):
+    a = unmut(a)
+    while isinstance(a, tuple) and a and a[0] == "cast":
+        a = unmut(a[2])
+    if isinstance(a, tuple) and a and a[0] == "v" and str(a[1]).startswith("param:"):
+        nm = a[1][len("param:"):]
+        return "$%d" % fa.param_names.index(nm) if nm in fa.param_names else "·"
+    if isinstance(a, tuple) and a and a[0] == "c":
+        return "const %s" % (a[1],)
+    if is_call_to(a, lambda s_: s_.endswith("Option::None")):
+        return "None"
+    return "·"
+
+
 def effect_skeleton(ctx, f):
     """per success path: the stream effects on parameters + the parsers/serialisers used, in order (R-TWIN-HAND)"""
     fa = ctx.fa(f)
@@ -246,6 +286,9 @@ def effect_skeleton(ctx, f):
                 continue
             fn = e.d["fn"]
             kinds = sorted(set(k for k, ks in e.d["effects"] if ks & params))
+            if fn in local:
+                # a local callee is compared with its own twin; of its summary only the byte-moving kinds matter here (flush↔close is the codec twin mapping)
+                kinds = [k for k in kinds if k not in ("flush", "close", "pos")] or kinds
             if kinds:
                 how = absint.READ_FNS.get(fn) or absint.WRITE_FNS.get(fn) or ""
                 size = ""
@@ -253,6 +296,9 @@ def effect_skeleton(ctx, f):
                     node = e.d["arg_nodes"][1]
                     size = node["e"]["ty"] if node["k"] == "Ref" else node["ty"]
                 cf = canon_fn(fn, local) if fn in local else ""
+                if fn in local:
+                    # what the sibling hands to the shared callee: its own parameters by position, constants and `None` by value, anything else opaque
+                    cf = (cf, tuple(_arg_sig(fa, a_) for a_ in e.d["args"]))
                 # a transfer through a `take(limit)` view of the stream is a different transfer: it stops at the limit
                 lim = [t for a_ in e.d["args"][:1] for t in subterms(unmut(a_)) if isinstance(t, tuple) and t and t[0] == "call" and t[1].endswith("::take") and len(t[2]) == 2]
                 if lim:
@@ -271,7 +317,8 @@ def effect_skeleton(ctx, f):
             elif fn in local and not kinds and any(x in fn for x in ("parse_meta_data",)):
                 sk.append(("local", canon_fn(fn, local)))
         # the async header writer may flush after its single write_all; flushing a raw stream moves no bytes
-        sk = [s for s in sk if s[0] not in (("flush",), ("close",))]
+        # (and a position query moves none either)
+        sk = [s for s in sk if s[0] not in (("flush",), ("close",), ("pos",))]
         # a JSON parse that drains a reader is the same transfer as read_to_end followed by a parse of the buffer
         merged = []
         for s in sk:
@@ -320,7 +367,7 @@ def r_twin(ctx):
             # codec factories differ by construction (sync vs async codec types); what must agree is decided by R-FACTORY arm by arm
             obs.append(Ob("R-TWIN", s["path"], "%s ↔ %s" % (s["path"].rpartition("::")[2], a["path"].rpartition("::")[2]), True, "codec factories: compared by R-FACTORY", rel(a["loc"])))
             continue
-        ns, na = norm(s["body"], local), norm(a["body"], local)
+        ns, na = norm_fn(s, local), norm_fn(a, local)
         d = first_diff(ns, na)
         tmpl = is_template_pair(s, a)
         site = "%s ↔ %s" % (s["path"].rpartition("::")[2], a["path"].rpartition("::")[2])
